@@ -141,6 +141,21 @@ fn impl_vs_spec(b: &Backend, m: &mut M, rep: &mut Report, key: &[u8], n: &[u8], 
         Ok((m2, _)) if m2 == msg => {}
         other => rep.violation(&format!("{cls}.rejects-spec-token"), format!("{} does not return the claims of a specification-conforming token: {:?}", b.name, other.map(|x| hex::encode(&x.0[..x.0.len().min(48)]))), case_json(b.name, key, n, msg, f, a, forced)),
     }
+    // ... also when it is read through a TYPED footer and carries footer bytes that are not the ones the type
+    // would write (here: trailing spaces, like insignificant white space in a JSON footer): the specification
+    // authenticates the footer bytes of the token, so the token is valid and its claims are the same
+    if forced.is_none() && !f.is_empty() && f.last() != Some(&b' ') {
+        let mut f2 = f.to_vec();
+        f2.extend_from_slice(b"  ");
+        rep.evaluations += 1;
+        rep.model_evaluations += 1;
+        let spec2 = spec_local(m, b.ver, key, n, msg, &f2, a);
+        let tok2 = lab::token_string(b.ver, "local", &spec2, &f2);
+        match (b.unseal_typed_footer)(true, key, &tok2, a) {
+            Ok((m2, fd)) if m2 == msg && fd == f => {}
+            other => rep.violation(&format!("{cls}.rejects-spec-token-typed-footer"), format!("{} does not return the claims of a specification-conforming token whose footer bytes end in white space when it is read through a typed footer: {:?}", b.name, other.map(|x| (x.0.len(), x.1.len()))), case_json(b.name, key, n, msg, &f2, a, forced)),
+        }
+    }
     set_hook(None);
     m.srv.force_iv = None;
 }
@@ -258,6 +273,30 @@ pub fn run(ctx: &Ctx) {
                             other => rep.violation(&format!("c03.siblings.{x}.public-accept"), format!("{} rejects a sibling's signed token: {:?}", verifier.name, other.map(|z| z.0.len())), json!({"token": t, "pk": hex::encode(&kp.pk)})),
                         },
                         Err(e) => rep.violation(&format!("c03.siblings.{x}.sign"), format!("sign failed: {e}"), json!({"sk": hex::encode(&kp.sk)})),
+                    }
+                }
+                // the same again AFTER a rejected verification on this thread (a token under the wrong implicit
+                // assertion reaches the signature check and fails): bit-exactness may not depend on what was
+                // verified before
+                if let Ok(t) = &sx {
+                    for v in [bx, by] {
+                        if (v.public_verify)(&kp.pk, t, b"another assertion", false).is_ok() {
+                            rep.violation(&format!("c03.siblings.{x}.public-accept-wrong-assertion"), format!("{} verifies a token under another implicit assertion", v.name), json!({"token": t, "pk": hex::encode(&kp.pk)}));
+                        }
+                    }
+                    let sx2 = (bx.public_sign)(&kp.sk, &msg, b"ft", b"ia", SealVia::Seal);
+                    let sy2 = (by.public_sign)(&kp.sk, &msg, b"ft", b"ia", SealVia::Seal);
+                    for (signed, verifier) in [(&sx2, by), (&sy2, bx), (&sx, by), (&sy, bx)] {
+                        match signed {
+                            Ok(t) => match (verifier.public_verify)(&kp.pk, t, b"ia", false) {
+                                Ok((m2, _)) if m2 == msg => {}
+                                other => rep.violation(&format!("c03.siblings.{x}.public-accept-after-rejection"), format!("after a rejected verification {} rejects a sibling's signed token: {:?}", verifier.name, other.map(|z| z.0.len())), json!({"token": t, "pk": hex::encode(&kp.pk)})),
+                            },
+                            Err(e) => rep.violation(&format!("c03.siblings.{x}.sign"), format!("sign failed after a rejected verification: {e}"), json!({"sk": hex::encode(&kp.sk)})),
+                        }
+                    }
+                    if x == "v4" && (sx2 != sx || sy2 != sy) {
+                        rep.violation("c03.siblings.v4.public-bytes-after-rejection", "the Ed25519 token for the same key and message differs after a rejected verification".into(), json!({"sk": hex::encode(&kp.sk), "m": hex::encode(&msg)}));
                     }
                 }
                 if x == "v4" && sx != sy {
